@@ -186,7 +186,11 @@ def r2(ctx: Ctx) -> None:
                 resets = [bp for bp in l.paths if bp.exit[0] != "raise" and bp.env.get(cn) is not None and not any(x[0] == "sym" and (x[1].startswith("ψ") or x == l.phi[cn]) for x in subterms(bp.env[cn]))]
                 ctx.check(not resets, f, l.node, "the id counter carries over from group to group", "never re-initialised inside the group loop", f"{len(resets)} path(s) reset it")
         ctx.require(n >= 3, f"{q}: expected the count, range and single branches")
-    # registries reject duplicates before anything is stored
+    check_registries(ctx)
+
+
+def check_registries(ctx: Ctx) -> None:
+    """registries reject duplicates before anything is stored"""
     for q, obj, tests in (("Simulator._add_market", "market", ["(market in self.markets)", "(market.market_id in self.id2market)", "(market.name in self.name2market)"]),
                           ("Simulator._add_agent", "agent", ["(agent in self.agents)", "(agent.agent_id in self.id2agent)", "(agent.name in self.name2agent)"]),
                           ("Simulator._add_session", "session", ["(session in self.sessions)", "(session.session_id in self.id2session)", "(session.name in self.name2session)"])):
@@ -198,8 +202,52 @@ def r2(ctx: Ctx) -> None:
                 continue
             m += 1
             got = {key(strip_ver(c)): pol for c, pol, _ in p.conds}
-            ok = all(got.get(t) is False for t in tests)
-            ctx.check(ok, f, f.node, f"{q}: object, id and name must all be new before anything is stored", "three membership tests decided false", str({t: got.get(t) for t in tests}))
+            missing = [t for t in tests if got.get(t) is not False]
+            if missing:
+                # the scan form: a loop over the registry that raises on a match with a registered entity
+                fields = {tests[0]: "", tests[1]: "." + tests[1].split(".", 1)[1].split(" ")[0], tests[2]: ".name"}
+                scans: Dict[str, str] = {}
+                for l in loops(p):
+                    if not any(key(x) in (f"self.{obj}s", f"self.id2{obj}", f"self.name2{obj}") for x in subterms(strip_ver(l.iter))):
+                        continue
+                    for bp in l.paths:
+                        if bp.exit[0] != "raise" or not bp.conds:
+                            continue
+                        c, pol, _ = bp.conds[-1]
+                        c = strip_ver(c)
+                        if c[0] != "cmp" or not pol:
+                            continue
+                        sides = sorted(key(strip_ver(x)) for x in (c[2], c[3]))
+                        for t, fld in fields.items():
+                            mine = obj + fld
+                            if mine in sides and any(x != mine and x.endswith(fld or "") and "∈" in x for x in sides):
+                                other = [x for x in sides if x != mine][0]
+                                if fld == "" and "." in other.split("∈")[-1]:
+                                    continue
+                                scans[t] = c[1]
+                still = [t for t in missing if t not in scans]
+                # the value is tested, but against another table
+                wrong = []
+                for t in still:
+                    lhs = t[1:].split(" in ")[0]
+                    for k_, pol_ in got.items():
+                        if k_.startswith("(" + lhs + " in ") and k_ != t and pol_ is False and k_ not in tests:
+                            wrong.append(f"{lhs} is looked up in {k_.split(' in ')[1][:-1]}")
+                    dup = [k_ for k_ in tests if k_ != t and k_.startswith("(" + lhs + " in ")]
+                if wrong:
+                    ctx.violated(f, f.node, f"{q}: object, id and name must all be new before anything is stored", "each of the three looked up in its own table", "; ".join(wrong))
+                    continue
+                bad = [t for t in missing if t in scans and scans[t] == "is" and t != tests[0]]
+                if bad:
+                    ctx.violated(f, f.node, f"{q}: object, id and name must all be new before anything is stored", "ids and names compared by value", f"compared by identity (`is`): {bad}; equal names or ids held in distinct objects pass as new")
+                    continue
+                if still and (p.conds or loops(p)):
+                    ctx.unrec(f, f.node, f"{q}: object, id and name must all be new before anything is stored", f"no membership test and no scan of the registry recognised for {still}")
+                    continue
+                if still:
+                    ctx.violated(f, f.node, f"{q}: object, id and name must all be new before anything is stored", "three membership tests decided false", f"stored without any test for {still}")
+                    continue
+            ctx.holds(f, f.node, f"{q}: object, id and name must all be new before anything is stored", "three membership tests decided false")
         ctx.require(m >= 1, f"{q}: registering path not found")
 
 
@@ -594,3 +642,10 @@ def r9(ctx: Ctx) -> None:
                     f = g if f is None or g.node.lineno >= f.node.lineno else f
             ctx.check(not hooks, f, node, "json is read as it is", "json.load(fp) without object_hook / parse_* arguments", ("hooks: " + ", ".join(hooks)) if hooks else "plain load")
     ctx.require(n >= 1, "no json.load in pams (the runner is expected to read its configuration with it)")
+
+
+@rule("C18.R10", "a configured number is used as configured, 0 included: no setup() falls back to a default through the truth value of what it read", "T13 lint over every setup(settings) in pams", floor=8)
+def r10(ctx: Ctx) -> None:
+    from .events import check_or_defaults
+
+    check_or_defaults(ctx, None, floor=8)
